@@ -48,12 +48,17 @@ class GzipApp(object):
         return [body]
 
 
-CONFIGS = ["app", "app-gzip", "session", "session-gzip", "cached", "file"]
+CONFIGS = ["app", "app-gzip", "session", "session-gzip", "cached", "file",
+           # open_dods_url (what ServerFunctionResult uses): the whole dataset decoded through a StreamReader
+           "dods-url", "dods-url-gzip", "dods-url-session", "dods-url-session-gzip",
+           # the same application behind a re-chunking hop: sequences are streamed (SequenceProxy.__iter__ searches
+           # `Data:` and decodes over the chunks as they come), arrays are read from the joined body
+           "app-chunk-bytes", "app-chunk-last1", "app-chunk-random", "app-gzip-chunk-bytes", "dods-url-chunk-bytes"]
 
 
 def open_with(config, app, t, d):
     """returns a callable var_tmpl -> raw client value for the top-level variable"""
-    from pydap.client import open_dods_file, open_url
+    from pydap.client import open_dods_file, open_dods_url, open_url
 
     url = "http://localhost:8001/d"
     if config == "app":
@@ -64,6 +69,20 @@ def open_with(config, app, t, d):
         ds = open_url(url, session=X.wsgi_session(app))
     elif config == "session-gzip":
         ds = open_url(url, session=X.wsgi_session(app, gz=True))
+    elif config.startswith("dods-url"):
+        if config == "dods-url":
+            kw = {"application": app}
+        elif config == "dods-url-gzip":
+            kw = {"application": GzipApp(app)}
+        elif config == "dods-url-chunk-bytes":
+            kw = {"application": X.Rechunk(app, "bytes")}
+        else:
+            kw = {"session": X.wsgi_session(app, gz=config.endswith("gzip"))}
+        return open_dods_url(url + ".dods", **kw), "file"
+    elif config.startswith("app-chunk-"):
+        ds = open_url(url, application=X.Rechunk(app, config[len("app-chunk-"):], seed=len(json.dumps(B.pack(d)))))
+    elif config == "app-gzip-chunk-bytes":
+        ds = open_url(url, application=X.Rechunk(GzipApp(app), "bytes"))
     elif config == "cached":
         import requests_cache
 
@@ -83,13 +102,7 @@ def open_with(config, app, t, d):
     return ds, "proxy"
 
 
-def read_file_var(v, t):
-    """values of a dataset returned by open_dods_file (data already decoded)"""
-    if t[0] == "b":
-        return v.data
-    if t[0] == "sq":
-        return list(X.materialise_rows(iter(v.data), t))
-    return [read_file_var(v[c[3] if c[0] == "b" else c[1]], c) for c in t[2]]
+read_file_var = X.read_decoded_var   # values of a dataset returned by open_dods_file / open_dods_url
 
 
 def declared_ok(v, t, probs, path=""):
@@ -207,6 +220,10 @@ def explore(ctx, tier, search=False):
         for nrows in nrows_list:
             d = [X.gen_data(rng, c, nrows=nrows) if c[0] == "sq" else X.gen_data(rng, c) for c in t[2]]
             check(ctx, t, d, ["app", rng.choice(configs_all[1:])], cases, "focused")
+    streaming = [c for c in configs_all if c.startswith("dods-url") or "chunk" in c]
+    for kind, t, d in X.last_variable_datasets(rng, ctx.budget(4, 30)):
+        check(ctx, t, d, ["dods-url", rng.choice(streaming), rng.choice(configs_all)], cases, "last")
+        ctx.tags["last-variable:" + kind] += 1
     n = ctx.budget(700, 12000) * (3 if search else 1)
     for i in range(n):
         t = X.gen_dataset(rng)
